@@ -99,6 +99,12 @@ def sfInClaim (ms : Mid) (supp : Supp1) (pool : Cur) (sfi : SfIn1) : Nat :=
   | some e => claimVal pool e.claimStart e.value
   | none => 0
 
+/-- weight of the siafund element a v1 input refers to -/
+def sfInW (ms : Mid) (supp : Supp1) (w : SfElem → Nat) (sfi : SfIn1) : Nat :=
+  match ms.sfElement supp sfi.parent with
+  | some e => w e
+  | none => 0
+
 def PendSf1 (T : Kind → Id → Prop) (ms : Mid) (supp : Supp1) (sfi : SfIn1) : Prop :=
   ∃ e, ms.sfElement supp sfi.parent = some e ∧ e.id = sfi.parent ∧ SpendableSf T ms e
 
@@ -117,12 +123,13 @@ theorem loop_sfIns1 {T} (supp : Supp1) (l : List SfIn1) : ∀ (ms ms' : Mid) (R 
     l.foldlM (stepSfIn1 supp) ms = .ok ms' →
     Reached T ms ms' (fun x => x ∈ l.map (·.parent) ∨ x ∈ l.map (·.claimId)) ∧ Fresh T ms' R ∧
     Phi ms' = Phi ms + (l.map (sfInClaim ms supp ms.pool)).sum ∧
-    sfTot ms' + (l.map (sfInVal ms supp)).sum = sfTot ms ∧ ms'.pool = ms.pool := by
+    sfTot ms' + (l.map (sfInVal ms supp)).sum = sfTot ms ∧ ms'.pool = ms.pool ∧
+    ∀ w : SfElem → Nat, sfW w ms' + (l.map (sfInW ms supp w)).sum = sfW w ms := by
   induction l with
   | nil =>
     intro ms ms' R _ hI _ _ hF h
     simp only [List.foldlM_nil] at h; cases h
-    exact ⟨⟨hI, rfl, Agree.refl _ _⟩, hF, by simp, by simp, rfl⟩
+    exact ⟨⟨hI, rfl, Agree.refl _ _⟩, hF, by simp, by simp, rfl, by simp⟩
   | cons a l ih =>
     intro ms ms' R hc hI hs hn hF h
     rw [List.foldlM_cons, bind_eq_ok] at h
@@ -150,7 +157,7 @@ theorem loop_sfIns1 {T} (supp : Supp1) (l : List SfIn1) : ∀ (ms ms' : Mid) (R 
     have hs2 : ∀ sfi ∈ l, PendSf1 T (((ms.spendSf e).createSc a.claimId { value := c, addr := a.claimAddr }
         (maturityHeight (ms.spendSf e).base))) supp sfi :=
       fun sfi hm => (hs sfi (List.mem_cons_of_mem _ hm)).agree hA12 (hne sfi hm)
-    obtain ⟨hR, hF', hP, hS, hp⟩ := ih _ ms' R (by rw [hb2, hb1]; exact hc) hI2 hs2 hn.2 hF2 h2
+    obtain ⟨hR, hF', hP, hS, hp, hW⟩ := ih _ ms' R (by rw [hb2, hb1]; exact hc) hI2 hs2 hn.2 hF2 h2
     have hvals : (l.map (sfInVal (((ms.spendSf e).createSc a.claimId { value := c, addr := a.claimAddr }
         (maturityHeight (ms.spendSf e).base))) supp)).sum = (l.map (sfInVal ms supp)).sum := by
       congr 1; apply List.map_congr_left; intro sfi hm
@@ -160,7 +167,7 @@ theorem loop_sfIns1 {T} (supp : Supp1) (l : List SfIn1) : ∀ (ms ms' : Mid) (R 
         (maturityHeight (ms.spendSf e).base))).pool)).sum = (l.map (sfInClaim ms supp ms.pool)).sum := by
       congr 1; apply List.map_congr_left; intro sfi hm
       unfold sfInClaim; rw [sfElement_agree hA12 supp (hne sfi hm), hp2, hp1]
-    refine ⟨⟨hR.inv, hR.base.trans (hb2.trans hb1), ?_⟩, hF', ?_, ?_, hp.trans (hp2.trans hp1)⟩
+    refine ⟨⟨hR.inv, hR.base.trans (hb2.trans hb1), ?_⟩, hF', ?_, ?_, hp.trans (hp2.trans hp1), ?_⟩
     · refine (hA12.mono (fun _ h => Or.inl h) |>.trans (hR.agree.mono (fun _ h => Or.inr h))).mono ?_
       intro x hx; simp only [List.map_cons, List.mem_cons]
       rcases hx with (h | h) | (h | h)
@@ -175,6 +182,19 @@ theorem loop_sfIns1 {T} (supp : Supp1) (l : List SfIn1) : ∀ (ms ms' : Mid) (R 
     · simp only [List.map_cons, List.sum_cons]
       have : sfInVal ms supp a = e.value := by unfold sfInVal; rw [he1]
       rw [this, ← hvals]; omega
+    · intro w
+      have h1 := hW w
+      have hws : (l.map (sfInW (((ms.spendSf e).createSc a.claimId { value := c, addr := a.claimAddr }
+          (maturityHeight (ms.spendSf e).base))) supp w)).sum = (l.map (sfInW ms supp w)).sum := by
+        congr 1; apply List.map_congr_left; intro sfi hm
+        unfold sfInW; rw [sfElement_agree hA12 supp (hne sfi hm)]
+      have h2 : sfW w ((ms.spendSf e).createSc a.claimId { value := c, addr := a.claimAddr }
+          (maturityHeight (ms.spendSf e).base)) = sfW w (ms.spendSf e) :=
+        sfW_congr w hb2 (by unfold Mid.createSc; exact putSc_sfes _ _ _)
+      have h3 := spendSf_w w hc hI he3
+      have h4 : sfInW ms supp w a = w e := by unfold sfInW; rw [he1]
+      simp only [List.map_cons, List.sum_cons]
+      rw [h4, ← hws]; omega
 
 -- ------------------------------------------------------------------ v1 contract formations
 
